@@ -5,9 +5,12 @@ package c10b
 import (
 	"crypto"
 	"crypto/rsa"
+	"crypto/x509"
 	"encoding/hex"
 	"encoding/pem"
 	"math/big"
+	"os"
+	"path/filepath"
 
 	"github.com/cloudflare/circl/blindsign/blindrsa"
 	"github.com/cloudflare/circl/blindsign/blindrsa/partiallyblindrsa"
@@ -104,8 +107,46 @@ func init() {
 	regSimOT()
 }
 
+// loadRSAKey reads a PKCS#1 PEM key from this package's testdata directory.
+func loadRSAKey(file string) *rsa.PrivateKey {
+	data, err := os.ReadFile(filepath.Join(vlib.Harness, "zz_verif", "c10b", "testdata", file))
+	if err != nil {
+		panic(err)
+	}
+	blk, _ := pem.Decode(data)
+	if blk == nil {
+		panic("no PEM block in " + file)
+	}
+	k, err := x509.ParsePKCS1PrivateKey(blk.Bytes)
+	if err != nil {
+		panic(err)
+	}
+	return k
+}
+
+// Besides the byte-aligned 2048-bit key, moduli of 1025 and 2049 bits (safe
+// primes; copies of c18/testdata/rsa-{1025,2049}-safe-0.pem): with a bit
+// length ≡ 1 (mod 8) the PSS encoded message is one byte shorter than the
+// modulus, so s^e mod N of a hostile signature s < N may not fit the buffer —
+// the length checks on that path are reachable only with such a key.
 func regBlindRSA() {
-	key := strongRSAKey()
+	allVariants := []blindVariant{{"PSS-Randomized", blindrsa.SHA384PSSRandomized}, {"PSSZERO-Randomized", blindrsa.SHA384PSSZeroRandomized},
+		{"PSS-Deterministic", blindrsa.SHA384PSSDeterministic}, {"PSSZERO-Deterministic", blindrsa.SHA384PSSZeroDeterministic}}
+	regBlindRSAKey("", strongRSAKey(), allVariants, []crypto.Hash{crypto.SHA384, crypto.SHA256})
+	regBlindRSAKey("1025-bit", loadRSAKey("rsa-1025-safe-0.pem"), allVariants[:2], []crypto.Hash{crypto.SHA384})
+	regBlindRSAKey("2049-bit", loadRSAKey("rsa-2049-safe-0.pem"), allVariants[:2], []crypto.Hash{crypto.SHA384})
+}
+
+type blindVariant struct {
+	name string
+	v    blindrsa.Variant
+}
+
+func regBlindRSAKey(tag string, key *rsa.PrivateKey, variants []blindVariant, hashes []crypto.Hash) {
+	sep, dot := "", ""
+	if tag != "" {
+		sep, dot = tag+"/", "/"+tag
+	}
 	kLen := (key.N.BitLen() + 7) / 8
 	// the integers 0, 1, N-1, N, N+1, 2^(8k)-1 and p as k-byte strings
 	var hostileInts [][]byte
@@ -114,11 +155,7 @@ func regBlindRSA() {
 		hostileInts = append(hostileInts, v.FillBytes(make([]byte, kLen)))
 	}
 	signer := blindrsa.NewSigner(key)
-	for _, vr := range []struct {
-		name string
-		v    blindrsa.Variant
-	}{{"PSS-Randomized", blindrsa.SHA384PSSRandomized}, {"PSSZERO-Randomized", blindrsa.SHA384PSSZeroRandomized},
-		{"PSS-Deterministic", blindrsa.SHA384PSSDeterministic}, {"PSSZERO-Deterministic", blindrsa.SHA384PSSZeroDeterministic}} {
+	for _, vr := range variants {
 		vr := vr
 		client, err := blindrsa.NewClient(vr.v, &key.PublicKey)
 		if err != nil {
@@ -147,11 +184,11 @@ func regBlindRSA() {
 		if verifier.Verify(msg, sig) != nil {
 			panic("blindrsa fixture does not verify")
 		}
-		name := "blindrsa/" + vr.name
+		name := "blindrsa/" + sep + vr.name
 		if vr.v == blindrsa.SHA384PSSRandomized {
 			// the signer does not depend on the variant: one entry
-			addCorpus("blindrsa.Signer.BlindSign", hostileInts...)
-			Register(Entry{Name: "blindrsa.Signer.BlindSign", Group: "blindrsa", Cost: 6,
+			addCorpus("blindrsa"+dot+".Signer.BlindSign", hostileInts...)
+			Register(Entry{Name: "blindrsa" + dot + ".Signer.BlindSign", Group: "blindrsa", Cost: 6,
 				Call:  func(b []byte) { _, _ = signer.BlindSign(b) },
 				Valid: func(int) []byte { return blinded }})
 		}
@@ -168,7 +205,7 @@ func regBlindRSA() {
 	}
 
 	// partially blind RSA
-	for _, h := range []crypto.Hash{crypto.SHA384, crypto.SHA256} {
+	for _, h := range hashes {
 		h := h
 		psigner, err := partiallyblindrsa.NewSigner(key, h)
 		if err != nil {
@@ -196,7 +233,7 @@ func regBlindRSA() {
 		if pverifier.Verify(pmsg, metadata, psig) != nil {
 			panic("partiallyblindrsa fixture does not verify")
 		}
-		name := "partiallyblindrsa/" + h.String()
+		name := "partiallyblindrsa/" + sep + h.String()
 		addCorpus(name+".Signer.BlindSign", hostileInts...)
 		addCorpus(name+".VerifierState.Finalize", hostileInts...)
 		addCorpus(name+".Verifier.Verify", hostileInts...)
